@@ -1,15 +1,16 @@
 """C12 - import reproduces the source table faithfully (DataFrame/CSV path)"""
 LEVEL = "other"
-TRUSTED = ["reference semantics written from the property statement (native/pure_bounded.py)"]
-EXPLANATION = ("BOUNDED STAND-IN ONLY, DataFrame/CSV path only (GEFF store path not covered): real tracks_from_df on every forest with <= 3 nodes, integer / string / zero-based ids, 2D/3D positions, extra custom column, renamed time column, parent encoded as NaN / -1, and the malformed variants duplicate id / unknown parent / self link / missing required column; nodes, edges, time, position and custom values are compared with the table; malformed tables must raise ValueError.")
-ASSUMPTIONS = ["bounded stand-in only: exhaustive/sampled over the stated finite space, not a proof"]
-NOT_UNDER_CONTRACT = ["CSVTracksBuilder.load_source", "_ensure_integer_ids", "flatten_name_map", "_combine_multi_value_props", "validate_in_memory_geff", "GEFF path (read_to_memory)"]
+TRUSTED = ["reference semantics written from the property statement (native/pure_bounded.py)", "flatten_name_map: dict.items() modelled as an ordered enumeration (key(i), value(i)); values assumed to be None, str or list of str (the annotated type); induction principle for the monotonicity lemma of the ghost offsets applied by hand (its step is a discharged obligation)"]
+EXPLANATION = ("PROVED (SMT, unbounded, symbolic ordered mapping with None / string / list-of-strings values): flatten_name_map returns, in mapping order, exactly one (standard key, source column) pair per string item and one unrenamed (column, column) pair per listed column, in the mapped order (P1 length = ghost offset of the end, P2, P3; two nested loop invariants; monotonicity of the offsets by induction, step discharged). BOUNDED STAND-IN for the rest, DataFrame/CSV path only (GEFF store path not covered): real tracks_from_df on every forest with <= 3 nodes, integer / string / zero-based ids, 2D/3D positions, extra custom column, renamed time column, parent encoded as NaN / -1, and the malformed variants duplicate id / unknown parent / self link / missing required column; nodes, edges, time, position and custom values are compared with the table; malformed tables must raise ValueError.")
+ASSUMPTIONS = ["everything except flatten_name_map is a bounded stand-in: exhaustive/sampled over the stated finite space, not a proof"]
+NOT_UNDER_CONTRACT = ["CSVTracksBuilder.load_source", "_ensure_integer_ids", "_combine_multi_value_props", "validate_node_name_map", "validate_in_memory_geff", "GEFF path (read_to_memory)"]
 
 
 def units(tier):
-    return []
+    from contracts import importmap
+    return importmap.units()
 
 
 def bounded(tier, seed):
     from pyvc.native_bridge import bounded_pure
-    return [bounded_pure(tier, "c12", "c12", "all forests <= 3 nodes x 3 id kinds x 2D/3D x 5 (mal)formedness variants x 2 column styles", seed, exhaustive=True)]
+    return [bounded_pure(tier, "c12", "c12", "all forests <= 3 nodes x 3 id kinds x 2D/3D x 8 (mal)formedness variants (incl. mappings to a column that exists only in another letter case) x 2 column styles", seed, exhaustive=True)]
